@@ -200,6 +200,21 @@ def search(pid, records, repo, scratch, seeds=4000, steps=80, tags=None):
                         'rerun': 'replay explore-panic all 600 16', 'tried': tried}
         except Exception as ex:
             tried.append({'collection': 'all (panic injection)', 'error': repr(ex)[:200]})
+    if 'C12' in (tags or [pid]):
+        # C12 has its own observation: a cleared collection against a freshly constructed twin given the same operations
+        try:
+            p = drv(root, ['explore-clear', 'all', str(max(seeds, 4000)), '60'], timeout=600)
+            line = p.stdout.strip().split('\n')[-1] if p.stdout.strip() else ''
+            j = json.loads(line)
+            tried.append({'collection': 'all (clear vs new twin)', 'ok': j.get('ok'), 'histories': j.get('histories'), 'comparisons': j.get('comparisons')})
+            if not j.get('ok'):
+                ce = j.get('counterexample', '')
+                mo = re.match(r'^\[([^\]]*)\]', ce)
+                return {'found': True, 'input': ce, 'tags': mo.group(1).split(',') if mo else ['C12'], 'collection': 'all',
+                        'how': 'replay driver: pseudo-random histories on the real code; from every clear() on, a freshly constructed twin gets the same operations and must show the same contents',
+                        'rerun': 'replay explore-clear all %d 60' % max(seeds, 4000), 'tried': tried}
+        except Exception as ex:
+            tried.append({'collection': 'all (clear vs new twin)', 'error': repr(ex)[:200]})
     for col in collections_of(records):
         try:
             p = drv(root, ['explore', col, str(seeds), str(steps)], timeout=600)
